@@ -26,7 +26,7 @@ impl CharRulePart {
             }
             CharRulePart::Identifier(ident) => {
                 let parser_name = format_ident!("parse_{}", ident);
-                Ok(quote!(#parser_name(state.clone(), global)))
+                Ok(quote!(#parser_name(state.clone(), &mut *global)))
             }
         }
     }
